@@ -4,17 +4,29 @@ import gen, gen_spec
 
 IMPL_MODULE = "spec_impl"
 RULE = ("bounded-exhaustive strings over class-representative alphabets (one representative per character class the patterns distinguish, incl. the four "
-        "IGNORECASE confusables, a non-ASCII letter and digit, U+00A0, newline) + generated/mutated specifiers and versions; acceptance and stored "
+        "IGNORECASE confusables, a non-ASCII letter and digit, U+00A0, newline, '_', upper case); word stems continued by every 2-letter tail over the "
+        "letters of the pre/post/dev words; all 29 whitespace code points and their neighbours in 10 positions; a code-point sweep (quick: U+0000-30FF, "
+        "thorough: every non-surrogate code point in two of them) through 4-6 templates + generated/mutated specifiers and versions; acceptance and stored "
         "operator/text compared with the scanner model; clause-inside-requirement law on the implementation; non-trivial = accepted; the exhaustive "
         "sub-streams enumerate their finite space completely")
 ALPHA_V = ["1", "0", ".", "a", "r", "c", "-", "+", "!", "v", " ", "p", "ſ", "é", "١", " ", "\n", "*"]
+ALPHA_V0 = list(ALPHA_V)
+ALPHA_V = ALPHA_V + ["_", "A", "e", "\u0131", "\u0130", "\u212a"]      # + separator '_', an upper-case letter, 'e', and the other three IGNORECASE confusables
+# letters of every pre/post/dev word + a digit and two separators: tails of word stems are enumerated over this alphabet
+ALPHA_W = list("alphbetrviwcosd") + ["1", ".", "-"]
+WORD_STEMS = ["1.0al", "1.0alph", "1.0be", "1.0bet", "1.0p", "1.0pr", "1.0prev", "1.0previ", "1.0previe", "1.0po", "1.0pos", "1.0r", "1.0re",
+              "1.0d", "1.0de", "1.0.PO", "1.0-De", "1.0_aLp", "1.0a1.de", "1.0rc.po"]
+NEAR_WS = [0x1b, 0x20, 0x7f, 0x84, 0x86, 0x9f, 0xa1, 0x180e, 0x1fff, 0x200b, 0x200c, 0x2027, 0x202a, 0x2060, 0x2fff, 0x3001, 0xfeff, 0x1a0]
 ALPHA_S = ["=", "~", "<", "!", "1", ".", "*", "a", "+", " ", "x", ";", "ſ", " "]
 
 def streams(rng, tier):
     q = tier == "quick"
     out = []
-    for s in gen.exhaustive(ALPHA_V, 4 if q else 5):
+    for s in gen.exhaustive(ALPHA_V, 4):
         out.append(Case("exh-version", "v.parse", [s]))
+    if not q:
+        for s in gen.exhaustive(ALPHA_V0, 5):       # length 5 over the 18 original class representatives (as before the alphabet was extended)
+            out.append(Case("exh-version", "v.parse", [s]))
     for s in gen.exhaustive(ALPHA_S, 4 if q else 6):
         out.append(Case("exh-specifier", "sp.parse", [s]))
     heads = ["1.0", "1!2", "1.0a", "1.0.post", "1.0-", "1.0.dev", "1.0+a", "v1"]
@@ -23,6 +35,22 @@ def streams(rng, tier):
             out.append(Case("exh-version-tail", "v.parse", [h + t]))
             for op in ("==", "~=", ">", "==="):
                 out.append(Case("exh-specifier-tail", "sp.parse", [op + h + t]))
+    # ---- improvement round (version language): word stems, every whitespace code point and its neighbours, a code-point sweep ----
+    for h in WORD_STEMS:
+        for t in gen.exhaustive(ALPHA_W, 2):
+            out.append(Case("exh-word-tail", "v.parse", [h + t]))
+    for c in [ord(x) for x in gen.WS_ALL] + NEAR_WS:
+        for tpl in ["%s1.0", "1.0%s", "%sv1.0rc1%s", "1%s0", "1.0%sa1", "1.0+a%s", "1.0+%sa", "%s", "1.0 %s", "%s 1.0"]:
+            out.append(Case("ws-all", "v.parse", [tpl.replace("%s", chr(c))]))
+    cps = list(range(0, 0x3100)) if q else [c for c in range(0x110000) if not 0xD800 <= c <= 0xDFFF]
+    for k, tpl in enumerate(["1.0%s", "1.0+%s", "%s1", "1.0.p%sst", "1%s0", "1.0a%s"]):
+        if q and k >= 4: break
+        for c in (cps if k < 2 else range(0, 0x3100)):      # thorough: the first two templates over every code point
+            out.append(Case("sweep-codepoint", "v.parse", [tpl.replace("%s", chr(c))]))
+    for _ in range(600 if q else 12000):
+        v = gen.rand_v_wide(rng); sv = gen.spell_wide(rng, v)
+        if rng.random() < 0.5: sv = gen.mutate(rng, sv, gen.MUT_CH + gen.WS_ALL + ["A", "Z", "_", "e", "(", ")"])
+        out.append(Case("gen-version-wide", "v.parse", [sv]))
     for _ in range(3000 if q else 60000):
         s, op, V, wild = gen_spec.spec_string(rng, admissible_p=0.7)
         if rng.random() < 0.3: s = gen.mutate(rng, s)
